@@ -76,8 +76,15 @@ def rich_extremes(chk, rnd, n):
             col = df[name].dropna()
             if len(col) == 0:
                 continue
+            numeric = kind in ('int64', 'uint8', 'Int64', 'int_extreme', 'float64', 'float_special', 'Float64')
             for key, agg in (('min', 'min'), ('max', 'max')):
                 if key not in fd:
+                    if numeric:
+                        # a numeric column with a non-null value has a smallest and a largest one (infinities included)
+                        cnt += 1
+                        chk.violation({'kind': 'discovery', 'clause': 'DiscoverIsSpec', 'ckind': key, 'coltype': kind, 'variant': 'rich', 'missing': True},
+                                      {'column_kind': kind, 'field': name, 'discovered': fd, 'values': repr(col.tolist()[:12]),
+                                       'how': 'discover_df(rich frame).to_json(): no %s although the column has non-null values' % key})
                     continue
                 got = fd[key]['value'] if isinstance(fd[key], dict) else fd[key]
                 try:
@@ -87,6 +94,9 @@ def rich_extremes(chk, rnd, n):
                     elif kind in ('int64', 'uint8', 'Int64', 'int_extreme'):
                         want = int(getattr(col, agg)())
                         ok = int(got) == want
+                    elif numeric:
+                        want = float(getattr(col.astype('float64'), agg)())
+                        ok = float(got) == want
                     else:
                         continue
                 except Exception:
